@@ -56,3 +56,9 @@ META["C15"] = {
     "note": "Frames are produced with x/net/http2's Framer and hpack encoder (trusted); 1xx responses and client GOAWAY are only covered by the byte-level part; the 3 s retry timer path is avoided by always closing the connection.",
     "technique": "property-based testing (rapid) with a reference model + differential transparency check + native coverage-guided fuzzing",
 }
+
+META["C17"] = {
+    "text": "Raw HTTP payloads are checked at three depths: the body encoders against an independent envelope parser and third-party decompressors; the raw-vs-handler arbitration as a state machine over the real middleware against a two-absorbing-state model and the unwrapped handler; and end to end over real HTTP/1.1 and h2c sockets - a plain HTTP client against a reference server started through the exported entry point (unary and all streaming handlers), and the exported reference client against a plain recording server for raw requests. Exploration by seeded generation with shrinking.",
+    "note": "Trusts net/http and x/net/http2 as plain peers and the independent decoders; header/trailer names that net/http itself manages and bodiless status codes are outside the domain.",
+    "technique": "property-based testing (rapid): round-trip with independent decoder, stateful model-based arbitration check, end-to-end differential observation by plain HTTP peers",
+}
